@@ -123,6 +123,8 @@ def link_models():
         t = v.s
         if t == fs.text[0]:
             return Ref(Cell(PathV(0, t)))
+        if t.startswith('/abs/') and hasattr(fs, 'resolve_text'):
+            return Ref(Cell(PathV(fs.resolve_text(ctx, t), t)))         # a further root given by its absolute path
         return Ref(Cell(PathV(None, t)))
 
     @reg(r'(^|::)canonical_path$', 'fs:canonical_path(link-aware)')
@@ -214,7 +216,7 @@ class EntryT(W.EntryV):
         self.text = text
 
 
-def run_family(sess, M, dot, dfs, fam, up=False, chains=False):
+def run_family(sess, M, dot, dfs, fam, up=False, chains=False, second_root=False):
     prog = sess.prog
     ex = sess.executor(link_models(), unwind=3 * M + 6, maxsteps=600000)
     viol = {}; st = {'paths': 0}
@@ -264,6 +266,11 @@ def run_family(sess, M, dot, dfs, fam, up=False, chains=False):
                     for u in range(1, M):
                         ctx.assume(Or(Not(fs.islink(i)), fs.target[i] != t, Not(fs.islink(t)), fs.target[t] != u, Not(fs.islink(u))))
         roots = [W.mk_root(prog, fs.text[0], BitVecVal(0, 32), BitVecVal(0, 32), dfs, symlinks=BoolVal(True))]
+        if second_root:
+            # a second root of the same query that is a directory of the first root's tree (node 1, a child of the root): "once per query"
+            ctx.assume(fs.isdir(1))
+            fs.chain(ctx, 1)
+            roots.append(W.mk_root(prog, fs.canon[1], BitVecVal(0, 32), BitVecVal(0, 32), dfs, symlinks=BoolVal(True)))
         q = W.mk_query(prog, roots, BitVecVal(0, 32), ordered=False)
         status = W.run_exec_search(ctx, prog, q)
         return fs, status
@@ -282,7 +289,7 @@ def run_family(sess, M, dot, dfs, fam, up=False, chains=False):
             if not viol.get(role):
                 viol[role] = True
                 fs = ctx.ghost['fs']
-                sess.violated(name, role, out[1][:200], {}, cli_replay(fs, ctx.model(), dot, dfs), fam)
+                sess.violated(name, role, out[1][:200], {}, cli_replay(fs, ctx.model(), dot, dfs, second_root), fam)
             return
         if out[0] != 'ret':
             st['bad'] = True; sess.inconclusive(name, str(out), fam); return
@@ -366,7 +373,7 @@ def run_family(sess, M, dot, dfs, fam, up=False, chains=False):
                 continue
             viol[role] = True
             sess.violated(name, role, 'reported %r, status %s, faults %r' % (trace, m.eval(status, model_completion=True), ctx.ghost.get('faulted')),
-                          {'trace': trace}, cli_replay(fs, m, dot, dfs), fam)
+                          {'trace': trace}, cli_replay(fs, m, dot, dfs, second_root), fam)
 
     n, complete = ex.explore(runp, on_path, time_budget=(240 if sess.tier == 'quick' else 1500))
     if not complete:
@@ -376,7 +383,7 @@ def run_family(sess, M, dot, dfs, fam, up=False, chains=False):
     sess.sample({'family': fam, 'paths': st['paths']})
 
 
-def cli_replay(fs, m, dot, dfs):
+def cli_replay(fs, m, dot, dfs, second_root=False):
     def rep():
         exe = common.native_binary()
         M = fs.M
@@ -433,6 +440,9 @@ def cli_replay(fs, m, dot, dfs):
             else:
                 cwd, root = d, os.path.join(d, 'R0')
             argv = ['name', 'from', root, 'symlinks'] + (['dfs'] if dfs else [])
+            if second_root:
+                # the same query names a directory of the first root's tree as a second root: nothing may be listed twice
+                argv += [',', os.path.join(d, 'R0', 'n1'), 'symlinks'] + (['dfs'] if dfs else [])
             p_ = subprocess.run([exe] + argv, cwd=cwd, stdout=subprocess.PIPE, stderr=subprocess.PIPE, timeout=20,
                                 env={'PATH': os.environ['PATH'], 'HOME': d, 'TZ': 'UTC'})
             got = sorted(p_.stdout.decode().split('\n')[:-1])
@@ -464,6 +474,10 @@ def main(sess):
             fam = 'links/%s/%s' % ('dot' if dot else 'abs', 'dfs' if dfs else 'bfs')
             if not only or fam in only:
                 run_family(sess, M, dot, dfs, fam)
+    for dfs in (False, True):
+        fam = 'links/two-roots/%s' % ('dfs' if dfs else 'bfs')       # from R0 symlinks, R0/n1 symlinks
+        if not only or fam in only:
+            run_family(sess, M, False, dfs, fam, second_root=True)
     fam = 'links/chains/bfs'
     if not only or fam in only:
         run_family(sess, 5, False, False, fam, chains=True)
